@@ -62,6 +62,10 @@ pub enum CovSpec {
     /// a straight-line program of more than 200 instructions that counts its own instructions and approves iff it ran
     /// exactly once from start to end
     LongStraight,
+    /// the standard signature covenant of key k FOLLOWED BY more instructions: 0 = `PushI 0` (never approves, whoever
+    /// signs), 1 = `PushI 0; Mul` (likewise), 2 = `LoadImm 9; PushI 0; Eql; Mul` (the key's signature AND first position
+    /// among the inputs).  A program that merely begins like the standard covenant is a different program.
+    StdPlus(usize, u8),
 }
 
 impl CovSpec {
@@ -118,6 +122,15 @@ impl CovSpec {
                 ops.push(Eql);
                 Covenant::from_ops(&ops).to_bytes()
             }
+            CovSpec::StdPlus(k, v) => {
+                let mut ops = Covenant::std_ed25519_pk_new(keys[*k].pk).to_ops();
+                match v {
+                    0 => ops.push(PushI(0u8.into())),
+                    1 => ops.extend([PushI(0u8.into()), Mul]),
+                    _ => ops.extend([LoadImm(9), PushI(0u8.into()), Eql, Mul]),
+                }
+                Covenant::from_ops(&ops).to_bytes()
+            }
             CovSpec::HeaderField(i, want_zero) => {
                 let mut ops = vec![PushI(U256::from(*i)), LoadImm(10), VRef];
                 if matches!(i, 1 | 3 | 4 | 5 | 9 | 10) {
@@ -163,7 +176,8 @@ impl Wallet {
         // the covenant-centred stream: unusual covenants much more often
         if twins() >= 6 && r.chance(1, 3) {
             return match r.below(7) {
-                6 => match r.below(9) {
+                6 => match r.below(12) {
+                    9 | 10 | 11 => CovSpec::StdPlus(r.below(nk) as usize, r.below(3) as u8),
                     0 | 1 | 2 => CovSpec::Stores(*r.pick(&[100u16, 100, 1, 0, 5, 9, 3, 65535])),
                     3 => CovSpec::NeedsSlot(*r.pick(&[100u16, 100, 65535, 11])),
                     4 => CovSpec::DynLoadTx,
@@ -206,7 +220,8 @@ impl Wallet {
                 }
             }
             _ => match r.below(5) {
-                4 => match r.below(7) {
+                4 => match r.below(9) {
+                    7 | 8 => CovSpec::StdPlus(r.below(nk) as usize, r.below(3) as u8),
                     0 | 1 => CovSpec::Stores(*r.pick(&[100u16, 1, 0, 5, 9])),
                     2 => CovSpec::NeedsSlot(100),
                     3 => CovSpec::DynLoadTx,
@@ -285,7 +300,7 @@ pub fn sign(w: &Wallet, tx: &mut Transaction, inputs: &[WCoin]) {
     let need = inputs.len().min(64);
     for (i, c) in inputs.iter().enumerate().take(need) {
         let s: Bytes = match &c.spec {
-            CovSpec::StdNew(k) => w.keys[*k].sk.sign(&h.0 .0).into(),
+            CovSpec::StdNew(k) | CovSpec::StdPlus(k, _) => w.keys[*k].sk.sign(&h.0 .0).into(),
             CovSpec::StdLegacy(k) if i == 0 => w.keys[*k].sk.sign(&h.0 .0).into(),
             _ => Bytes::new(),
         };
